@@ -207,6 +207,16 @@ def oracle(case, rec, bodies):
                 # 5. restart keeps the table
                 if ev["tag"] == "restart" and after != pinned:
                     bad.append(("pin_lost_on_restart", "account %d: %r -> %r" % (idx, pinned, after)))
+            # 0. the first key seen is remembered: whoever we encrypt for / are shown a message from has a stored key
+            if after is not None:
+                for o in msg_out:
+                    if not o["plain"] and after.get(o["peer"]) is None:
+                        bad.append(("not_remembered", "account %d encrypted for %d but stores no key for it" %
+                                    (idx, o["peer"])))
+                for o in delivered:
+                    if after.get(o["peer"]) is None:
+                        bad.append(("not_remembered", "account %d was shown a message of %d but stores no key for "
+                                    "it" % (idx, o["peer"])))
             # 2. nothing is encrypted for an identity other than the remembered one (auto-trust off)
             for o in msg_out:
                 if o["plain"]:
@@ -286,6 +296,13 @@ def scripted_cases():
                    "ops": [["send", 0, 2], ["send", 1, 2], ["send", 2, 0], ["send", 2, 1], ["reinstall", 2],
                            ["restart", 0], ["send", 0, 2], ["send", 2, 1], ["send", 1, 2], ["send", 1, 0]],
                    "expect": {"1": True, "2": True, "3": True, "4": True, "5": auto, "6": auto, "7": auto, "8": True}})
+    # regression for fixes/C17-autotrust-rebuild-session.patch: account 1 (auto-trust) holds a pin for 0 but no session
+    # (a stale first message saved the identity, then failed to verify); 0 reinstalls; 1 sends: the bundle shows a
+    # new identity -> trusted -> the session must be built, else sendToContact raises out of the stack
+    cs.append({"name": "autotrust-bundle-without-session", "n": 2, "autotrust": [False, True],
+               "ops": [["send", 0, 1, "x", "hold"], ["reinstall", 1], ["reinstall", 0], ["send", 1, 0, "x"],
+                       ["send", 0, 1, "x"]],
+               "expect": {"1": False, "2": True, "3": True}})
     # a reinstalled account answers messages encrypted for its old identity with retries only
     cs.append({"name": "dup-and-burst", "n": 2, "autotrust": [False, False],
                "ops": [["send", 0, 1, "x", "hold"], ["send", 0, 1, "x", "hold"], ["dup"], ["send", 1, 0],
